@@ -21,6 +21,7 @@ Inductive effect :=
 | ESet (m : nat) (ls : tuple) (v : dval)
 | EDel (m : nat) (ls : tuple)
 | EExpire (m : nat) (ls : tuple) (e : Z)
+| EObs (m : nat) (ls : tuple) (v : Z)   (* histogram assignment: Observe *)
 | EFail.   (* an instruction that raises a runtime error whatever the state (e.g. strptime on text that does not parse) *)
 
 (* vmHandle: contentHash and the VM's metric table (object id, descriptor) *)
@@ -47,20 +48,27 @@ Definition setp (p : bytes) (x : pstate) (st : state) : state :=
 
 (* ---- what codegen does for a declaration: metrics.NewMetric, and for a
    scalar Int/Float counter GetDatum() + Set(0, time.Unix(0,0)) ---- *)
-Definition zero_dval (ty : N) : dval := if N.eqb ty 1 then DFloat 0 else DInt 0.
+Definition zero_dval (ty : N) : dval :=
+  if N.eqb ty 1 then DFloat 0 else if N.eqb ty 3 then DHist 0 0 else DInt 0.
+
+(* codegen calls m.GetDatum() for a declaration without keys when it is a
+   counter (then Set(0, time.Unix(0,0))) or a histogram (datum.NewBuckets, whose
+   time stays zero until the first Observe): these metrics come with one label
+   value, for the empty tuple, already allocated *)
+Definition prealloc (d : decl) : bool :=
+  match d_keys d with
+  | [] => N.eqb (d_kind d) 1 || N.eqb (d_kind d) 5
+  | _ => false
+  end.
 
 Definition alloc_obj (h : pheap) (d : decl) : pheap * N :=
   let o := ph_nexto h in
-  match d_keys d with
-  | [] =>
-      if N.eqb (d_kind d) 1 then
-        let k := ph_nextd h in
-        (mkph (ph_lvs h ++ [(o, [mkslv [] k 0%Z])])
-              (ph_data h ++ [(k, mkdatum (zero_dval (d_type d)) 0%Z)])
-              (N.succ o) (N.succ k), o)
-      else (mkph (ph_lvs h ++ [(o, [])]) (ph_data h) (N.succ o) (ph_nextd h), o)
-  | _ => (mkph (ph_lvs h ++ [(o, [])]) (ph_data h) (N.succ o) (ph_nextd h), o)
-  end.
+  if prealloc d then
+    let k := ph_nextd h in
+    (mkph (ph_lvs h ++ [(o, [mkslv [] k 0%Z])])
+          (ph_data h ++ [(k, mkdatum (zero_dval (d_type d)) 0%Z)])
+          (N.succ o) (N.succ k), o)
+  else (mkph (ph_lvs h ++ [(o, [])]) (ph_data h) (N.succ o) (ph_nextd h), o).
 
 Fixpoint alloc_objs (h : pheap) (ds : list decl) : pheap * list (N * decl) :=
   match ds with
@@ -145,7 +153,8 @@ Definition datum_of (h : pheap) (k : N) : datum :=
 Definition set_datum (h : pheap) (k : N) (d : datum) : pheap :=
   mkph (ph_lvs h) (nupdate k d (ph_data h)) (ph_nexto h) (ph_nextd h).
 
-(* GetDatum: find or create (a new datum is stamped with the current time) *)
+(* GetDatum: find or create (a new Int/Float/String datum is stamped with the
+   current time; datum.NewBuckets leaves the time at zero) *)
 Definition get_datum (h : pheap) (o : N) (d : decl) (ls : tuple) (now : Z) : option (pheap * N) :=
   if negb (Nat.eqb (length ls) (length (d_keys d))) then None else
   match lv_find ls (obj_lvs h o) with
@@ -153,12 +162,15 @@ Definition get_datum (h : pheap) (o : N) (d : decl) (ls : tuple) (now : Z) : opt
   | None =>
       let k := ph_nextd h in
       Some (mkph (nupdate o (obj_lvs h o ++ [mkslv ls k 0%Z]) (ph_lvs h))
-                 (ph_data h ++ [(k, mkdatum (zero_dval (d_type d)) now)])
+                 (ph_data h ++ [(k, mkdatum (zero_dval (d_type d))
+                                            (if N.eqb (d_type d) 3 then 0%Z else now))])
                  (ph_nexto h) (N.succ k), k)
   end.
 
 Definition inc_dval (v : dval) (d : Z) : dval :=
-  match v with DInt z => DInt (wrap64 (z + d)) | DFloat b => DFloat b end.
+  match v with DInt z => DInt (wrap64 (z + d)) | other => other end.
+Definition obs_dval (v : dval) (x : Z) : dval :=
+  match v with DHist c s => DHist (N.succ c) (s + x)%Z | other => other end.
 
 (* None = a runtime error (errorf): the rest of the line is abandoned *)
 Definition exec_effect (h : pheap) (objs : list (N * decl)) (e : effect) (now : Z) : option pheap :=
@@ -183,6 +195,11 @@ Definition exec_effect (h : pheap) (objs : list (N * decl)) (e : effect) (now : 
       match lv_find ls (obj_lvs h o) with
       | Some _ => Some (set_obj_lvs h o
                     (lv_upd ls (fun x => mkslv (sl_labels x) (sl_datum x) ex) (obj_lvs h o)))
+      | None => None
+      end)
+  | EObs m ls x => on m (fun o d =>
+      match get_datum h o d ls now with
+      | Some (h1, k) => Some (set_datum h1 k (mkdatum (obs_dval (dv (datum_of h1 k)) x) now))
       | None => None
       end)
   | EFail => None
